@@ -110,6 +110,7 @@ def make_registry():
     permmodel.install_contiguous(R)
     permmodel.install_where_median(R)
     permmodel.install_bincount(R)
+    permmodel.install_kmeanspp_helpers(R)
     from . import sparsemodel
     sparsemodel.install(R, models)
     sparsemodel.install_argmax(R)
